@@ -1,4 +1,5 @@
 import Skglm.Driver.Ops
+import Skglm.Driver.OpsDatafit
 open Skglm Skglm.Proto
 
 def answer (line : String) : String :=
@@ -6,7 +7,7 @@ def answer (line : String) : String :=
   match toks with
   | [] => "err:empty"
   | op :: args =>
-    match Skglm.Ops.penOps op with
+    match (Skglm.Ops.penOps op <|> Skglm.Ops.dfOps op) with
     | none => s!"err:unknown-op:{op}"
     | some p =>
       match p.run args with
